@@ -71,6 +71,11 @@ enum State {
     /// We have some index hunks from a band and can return them gradually.
     InBand {
         band_id: BandId,
+        /// Everything up to and including this path was already provided by a newer band:
+        /// entries of this band at or before it are passed over. The hunks are skipped
+        /// ahead to this point anyway, but that relies on this band's index being in
+        /// order, which a damaged index might not be.
+        floor: Option<Apath>,
         /// Temporarily buffered entries, read from the index files but not yet
         /// returned to the client. If this is empty, it's time to read the next
         /// hunk, or try the next band, or just the end.
@@ -140,10 +145,15 @@ impl Stitch {
                 State::Done => return None,
                 State::InBand {
                     band_id,
+                    floor,
                     index_hunks,
                     buffered_entries,
                 } => {
                     if let Some(entry) = buffered_entries.next() {
+                        if floor.as_ref().is_some_and(|floor| entry.apath <= *floor) {
+                            // A newer band already supplied this path.
+                            continue;
+                        }
                         // TODO: We could be smarter about skipping ahead if nothing
                         // in this page matches; or terminating early if we know
                         // nothing else in the index can be under this subtree.
@@ -188,6 +198,7 @@ impl Stitch {
                                 }
                                 State::InBand {
                                     band_id: *band_id,
+                                    floor: self.last_apath.clone(),
                                     index_hunks,
                                     buffered_entries: Vec::new().into_iter().peekable(),
                                 }
